@@ -2427,3 +2427,109 @@ func exitReportsServerFatal(from *ssa.BasicBlock) bool {
 	}
 	return walk(from)
 }
+
+// R-SIGORDER (C06 "signal traffic in both directions"): the goroutine that forwards the caller's signals to the step
+// writes to the same connection as Execute itself. The peer refuses a signal for a run it has not been told about
+// ("unknown step with run ID"), and the signal is lost - a step that ends on that signal then never ends, and Execute
+// never returns. The `go` that starts a signal forwarder (a function that receives from a channel parameter and reaches
+// an Encode) must therefore be reached only after the work start has been written: on the nil-error outcome of a call
+// that reaches the connection's encoder.
+func (c *Ctx) ruleSignalOrder(rule string) {
+	ro := c.roles()
+	if !ro.ok {
+		return
+	}
+	encodes := func(f *ssa.Function) bool {
+		for g := range c.M.Reachable([]*ssa.Function{f}, nil) {
+			for _, bb := range g.Blocks {
+				for _, in := range bb.Instrs {
+					if call, ok := in.(*ssa.Call); ok && strings.HasSuffix(core.StaticCalleeName(&call.Call), "cbor/v2.Encoder).Encode") {
+						return true
+					}
+				}
+			}
+		}
+		return false
+	}
+	recvFromParam := func(f *ssa.Function) bool {
+		isParam := func(v ssa.Value) bool {
+			for _, p := range f.Params {
+				if v == ssa.Value(p) {
+					return true
+				}
+			}
+			return false
+		}
+		for _, bb := range f.Blocks {
+			for _, in := range bb.Instrs {
+				switch x := in.(type) {
+				case *ssa.Select:
+					for _, st := range x.States {
+						if st.Dir == types.RecvOnly && isParam(st.Chan) {
+							return true
+						}
+					}
+				case *ssa.UnOp:
+					if x.Op.String() == "<-" && isParam(x.X) {
+						return true
+					}
+				}
+			}
+		}
+		return false
+	}
+	isForwarder := func(f *ssa.Function) bool {
+		for g := range c.M.Reachable([]*ssa.Function{f}, nil) {
+			if recvFromParam(g) && encodes(g) {
+				return true
+			}
+		}
+		return false
+	}
+	n := 0
+	for _, fn := range c.M.SortedFuncs(c.scopePkg("atp")) {
+		if !c.methodOrClosureOf(fn, ro.clientT) {
+			continue
+		}
+		for _, b := range fn.Blocks {
+			for _, in := range b.Instrs {
+				g, ok := in.(*ssa.Go)
+				if !ok {
+					continue
+				}
+				fwd := false
+				for _, tgt := range c.M.Callees(g.Common()) {
+					if isForwarder(tgt) {
+						fwd = true
+					}
+				}
+				if !fwd {
+					continue
+				}
+				n++
+				k := key(rule, c.M.Key(fn), "signal forwarder started only after the work start is written")
+				started := false
+				for _, cond := range core.CondsAt(b) {
+					x, neq, ok := core.NilCmp(cond.V)
+					if !ok || neq == cond.True {
+						continue
+					}
+					if call, ok := core.Unwrap(x).(*ssa.Call); ok {
+						if callee := call.Call.StaticCallee(); callee != nil && encodes(callee) {
+							started = true
+						}
+					}
+				}
+				if started {
+					c.R.Ok(rule, k, c.M.InstrPos(g), "start of the goroutine that forwards signals to the step", "reached only on the nil-error outcome of a write to the connection (the work start)")
+				} else {
+					c.R.Bad(rule, k, c.M.InstrPos(g), "the signal forwarder is started before the work start is known to be written",
+						"forwarder and Execute race for the encoder: a signal already waiting in the caller's channel can be written first, the peer refuses it as a signal for an unknown run, and a step that ends on that signal keeps Execute waiting for ever")
+				}
+			}
+		}
+	}
+	if n == 0 {
+		c.R.Unresolved(rule, "goroutine that forwards the caller's signals to the step")
+	}
+}
